@@ -135,6 +135,24 @@ where casesList (nestedSupported : Bool) : List XSuite → List Case
   | [] => []
   | s :: rest => s.cases nestedSupported ++ casesList nestedSupported rest
 
+/-- Every `<testcase>` of a suite tree, at every depth (own cases first, then the nested suites in order). -/
+def XSuite.all : XSuite → List XCase
+  | .mk cs nested => cs ++ allList nested
+where allList : List XSuite → List XCase
+  | [] => []
+  | s :: rest => s.all ++ allList rest
+
+/-- How `toCoreTestSuite` reaches the nested suites (regenerated fact `nestedTraversal`):
+    "recursive" — it calls itself on every element of `TestSuites` (the code after the repair);
+    "none" — it does not look at them; "direct" — only the direct children's own cases.
+    Anything else cannot be followed by the model (it then assumes "recursive" and `FactsOK` fails). -/
+def XSuite.casesMode (mode : String) (s : XSuite) : List Case :=
+  if mode = "none" then s.cases false
+  else if mode = "direct" then
+    match s with
+    | .mk cs nested => cs.map XCase.toCase ++ nested.flatMap fun n => match n with | .mk cs' _ => cs'.map XCase.toCase
+  else s.cases true
+
 /-! ### go test -v: from go-junit-report's result to an execution -/
 
 inductive GoResult | pass | fail | skip | unknown
